@@ -320,7 +320,7 @@ func cmdPlay(args []string) {
 	w := bufio.NewWriterSize(o, 1<<20)
 	sc := bufio.NewScanner(f)
 	sc.Buffer(make([]byte, 1<<20), 64<<20)
-	n := 0
+	n, skipped := 0, 0
 	for sc.Scan() {
 		if len(sc.Bytes()) == 0 {
 			continue
@@ -330,11 +330,17 @@ func cmdPlay(args []string) {
 			fmt.Println("MACHINERY-ERROR bad scenario:", err)
 			os.Exit(2)
 		}
+		if Hangs >= 3 {
+			// three Runs of this process never returned: each keeps a core busy and costs the watchdog time;
+			// the rest of this shard is not played (the hangs already decide the run)
+			skipped++
+			continue
+		}
 		playScenario(&s, w)
 		n++
 	}
 	w.Flush()
-	fmt.Printf("play: %d scenarios\n", n)
+	fmt.Printf("play: %d scenarios, %d not played after %d hangs\n", n, skipped, Hangs)
 }
 
 // par: isolation (C10). The scenarios are dealt to N goroutines; each goroutine
